@@ -21,7 +21,7 @@ import (
 	"verifharness/hx"
 )
 
-var stats = evid.New("C18", "rapid: programs of 1..60 operations over names {a,b,c,d} (depth <= 3, biased by a simulated tree towards existing entries) run against the fuseutil.FileSystem of a mutable mount by a harness that plays the kernel: dentry cache + owed lookup counts, path resolution by LookUpInode (cached or fresh), VFS-level checks (EEXIST/EISDIR/ENOTDIR, rename type compatibility, rename into own subtree, same inode), create/mkdir (also sent on an existing name: the op contract demands EEXIST), write (holes, appends, leaf-relative sizes), truncate, rename (over files, empty and non-empty directories, across directories), unlink, rmdir, lookup, getattr, read within [0,size], readdir (offset 0, one large buffer), forget (live or unlinked inode; one/half/all of the owed count; as one op with N=n or n ops with N=1). After every k-th op (k drawn, mostly 1) the whole tree is compared with a reference POSIX tree model: every directory listed, every name of the name space looked up in every directory (ENOENT for absent), all live inodes held at once must be pairwise distinct, attributes (type, size), then the lookups are given back. Finally Commit, download of the new bundle and comparison of its files with the model. Non-trivial: a forget of a live entry followed by a lookup/create/mkdir op, or a rename over an existing file, or an inode number handed out again for another entry; distinct by the set of op-kind bigrams of the program.")
+var stats = evid.New("C18", "rapid: programs of 1..60 operations over names {a,ab,b,c} (depth <= 3, biased by a simulated tree towards existing entries) run against the fuseutil.FileSystem of a mutable mount by a harness that plays the kernel: dentry cache + owed lookup counts, path resolution by LookUpInode (cached or fresh), VFS-level checks (EEXIST/EISDIR/ENOTDIR, rename type compatibility, rename into own subtree, same inode), create/mkdir (also sent on an existing name: the op contract demands EEXIST), write (holes, appends, leaf-relative sizes), truncate, rename (over files, empty and non-empty directories, across directories), unlink, rmdir, lookup, getattr, read within [0,size], readdir (offset 0, one large buffer), forget (live or unlinked inode; one/half/all of the owed count; as one op with N=n or n ops with N=1). After every k-th op (k drawn, mostly 1) the whole tree is compared with a reference POSIX tree model: every directory listed, every name of the name space looked up in every directory (ENOENT for absent), all live inodes held at once must be pairwise distinct, attributes (type, size), then the lookups are given back. Finally Commit, download of the new bundle and comparison of its files with the model. Non-trivial: a forget of a live entry followed by a lookup/create/mkdir op, or a rename over an existing file, or an inode number handed out again for another entry; distinct by the set of op-kind bigrams of the program.")
 
 func TestMain(m *testing.M) {
 	code := m.Run()
@@ -57,7 +57,8 @@ type caseT struct {
 	Ops       []opT  `json:"ops"`
 }
 
-var nameSpace = []string{"a", "b", "c", "d"}
+// "a" is a proper prefix of "ab": lookup keys of siblings share a prefix
+var nameSpace = []string{"a", "ab", "b", "c"}
 
 type gen struct {
 	t     *rapid.T
